@@ -233,3 +233,33 @@ Section Plan.
     destruct (strategies false (nth i (s_src s) fdummy) (nth j (s_dst s) fdummy)); [contradiction | simpl; lia].
   Qed.
 End Plan.
+
+(* ------------------------------------------------ statements, membership *)
+Lemma to_stmts_in sp need s st :
+  In st (to_stmts sp need s) ->
+  exists i j h, i < length (s_src s) /\ f_target (src_at s i) = Some j
+                /\ In h (strategies true (dst_at s j) (src_at s i))
+                /\ st = {| st_dst := ref_of (dst_at s j); st_src := ref_of (src_at s i); st_how := h;
+                           st_guard := guard_of (need (f_name (src_at s i))) sp (f_name (src_at s i)) |}.
+Proof.
+  unfold to_stmts. intros H. apply in_flat_map in H. destruct H as (sf & Hsf & H).
+  destruct (In_nth _ _ fdummy Hsf) as (i & Hi & Ei).
+  destruct (f_target sf) as [j|] eqn:T; [|contradiction].
+  apply in_map_iff in H. destruct H as (h & <- & Hh).
+  exists i, j, h. unfold src_at. rewrite Ei. auto.
+Qed.
+
+Lemma from_stmts_in dp need s st :
+  In st (from_stmts dp need s) ->
+  exists j i h, j < length (s_dst s) /\ f_target (dst_at s j) = Some i
+                /\ In h (strategies false (src_at s i) (dst_at s j))
+                /\ st = {| st_dst := ref_of (src_at s i); st_src := ref_of (dst_at s j); st_how := h;
+                           st_guard := guard_of (need (f_name (src_at s i))) dp (f_name (dst_at s j)) |}.
+Proof.
+  unfold from_stmts. intros H. apply in_flat_map in H. destruct H as (df & Hdf & H).
+  destruct (In_nth _ _ fdummy Hdf) as (j & Hj & Ej).
+  destruct (f_target df) as [i|] eqn:T; [|contradiction].
+  apply in_map_iff in H. destruct H as (h & <- & Hh).
+  exists j, i, h. unfold dst_at. rewrite Ej. auto.
+Qed.
+
